@@ -114,6 +114,8 @@ def setup(concepts, spec):
     attach.attach(alg.fcbo, 'fcbo_dual', GenMonitor('fcbo_dual', cap))
     attach.attach(alg, 'iterconcepts', GenMonitor('iterconcepts', cap))
     attach.attach(alg, 'get_concepts', ListMonitor(cap))
+    global POOL
+    POOL = common.Pool(5)
 
 
 def cases(tier, seed, spec):
@@ -164,6 +166,14 @@ def run_case(concepts, case, spec):
                 call(list, g2)
             call(list, g1)
             COL.count('interleaved_generator_runs')
+    old = POOL.older(rng)
+    if old is not None:
+        for fn in (alg.fast_generate_from, alg.fcbo_dual, alg.get_concepts):
+            g = call(fn, old)
+            if g is not RAISED:
+                call(list, g)
+        COL.count('session_requeries')
+    POOL.add(ctx)
     # cross-check with context.lattice (driver side, C03 judges the lattice itself)
     lat = common.get_lattice(ctx)
     if lat is not RAISED:
